@@ -87,9 +87,11 @@ def run(chk: core.Check):
     cases, meta, written = [], {}, []
     skipped = unattributed = 0
     for di, r in enumerate(recs):
-        if r["raised"] or r["diff"] or not r["grammar"]["ok"]:
+        if r["raised"] or not r["grammar"]["ok"]:
             skipped += 1
             continue
+        scanner_differs = bool(r["diff"])     # (a difference from the scanner specification is C01-C03's to report; the
+        #                                        round trip law is decided here all the same: it needs no specification)
         text = r["text"]
         toks = bibtok.alpha(text, [x for s in r["spans"] for x in s])
         try:
@@ -97,9 +99,11 @@ def run(chk: core.Check):
         except Exception as ex:  # noqa
             chk.mismatch("raised", {"kind": "doc", "text": text}, f"parse_string: {type(ex).__name__}: {ex}", "returns", kind="doc")
             continue
-        if c11.compare_parsed(bib, text, toks, r["out"], r["parsed"], lib1):
-            unattributed += 1        # parsing does not conform: subject of C02/C11
-            continue
+        try:
+            if not scanner_differs and c11.compare_parsed(bib, text, toks, r["out"], r["parsed"], lib1):
+                unattributed += 1        # parsing does not conform: subject of C02/C11 - the round trip is judged anyway
+        except Exception:  # noqa
+            unattributed += 1
         fmts = FORMATS if di % 40 == 0 else rnd.sample(FORMATS, nfmt)
         p1 = c06.project(lib1, M)        # the content of the first parse, taken BEFORE anything is written: the same parsed
         for f in fmts:                   # library is then written under several formats
